@@ -138,3 +138,59 @@ func Goid() int64 {
 	}
 	return id
 }
+
+// Trace is a per-scenario event buffer: scenarios running in parallel record
+// into their own Trace (events ordered by the Trace's mutex) and append it to
+// the sink atomically when done.
+type Trace struct {
+	mu    sync.Mutex
+	s     *Sink
+	class string
+	desc  string
+	kv    []any
+	lines [][]byte
+	done  bool
+}
+
+// Begin starts a buffered trace.
+func (s *Sink) Begin(class, desc string, kv ...any) *Trace {
+	return &Trace{s: s, class: class, desc: desc, kv: kv}
+}
+
+// Emit appends one event to the buffered trace. Events emitted after End are dropped
+// and counted (late callbacks of a scenario that was already closed).
+func (t *Trace) Emit(ev string, kv ...any) {
+	var b bytes.Buffer
+	b.WriteString(`{"e":`)
+	b.WriteString(strconv.Quote(ev))
+	for i := 0; i+1 < len(kv); i += 2 {
+		b.WriteByte(',')
+		b.WriteString(strconv.Quote(kv[i].(string)))
+		b.WriteByte(':')
+		appendVal(&b, kv[i+1])
+	}
+	b.WriteString("}\n")
+	t.mu.Lock()
+	if !t.done {
+		t.lines = append(t.lines, b.Bytes())
+	}
+	t.mu.Unlock()
+}
+
+// End writes the trace to the sink.
+func (t *Trace) End() {
+	t.mu.Lock()
+	t.done = true
+	lines := t.lines
+	t.mu.Unlock()
+	s := t.s
+	s.mu.Lock()
+	defer s.mu.Unlock()
+	s.tid++
+	all := append([]any{"t", s.tid, "k", t.class, "desc", t.desc}, t.kv...)
+	s.write("reset", all)
+	for _, l := range lines {
+		s.w.Write(l)
+		s.n++
+	}
+}
